@@ -33,13 +33,12 @@ structure St where
   fresh : List Iv := []
   /-- objects of the last snapshot (valid while no pause happened since) -/
   snapIvs : List Iv := []
-  /-- C09 mode: `stats` right after `gc _ 1` with an empty root table is a floor sample -/
+  /-- C09 mode: a `stats` that follows `gc _ 1` with no mutator op in between is a floor sample -/
   c09 : Bool := false
   warm : Nat := 3
   slack : Nat := 0
   lastGcExh : Bool := false
-  samples : Nat := 0
-  floor : Nat := 0
+  fl : Floor := {}
 
 def dropStr (s : String) (n : Nat) : String := String.ofList (s.toList.drop n)
 
@@ -107,10 +106,6 @@ def parseSnap (toks : List String) : Option Snap :=
     | _, _ => none
   | _ => none
 
-def sizeFor (refoff nf payload : Nat) : Nat :=
-  let raw := refoff + 24 + 8 * nf + payload
-  Nat.max 32 ((raw + 7) / 8 * 8)
-
 def noteGcs (st : St) (n : Nat) : St :=
   if n == st.gcs then st else { st with gcs := n, fresh := [], snapIvs := [] }
 
@@ -149,30 +144,13 @@ def doAlloc (st : St) (op res : List String) : St × String :=
         let want := (st.allocmap.lookup sem).getD "?"
         let iv : Iv := { start := a, size := sz, id := id }
         let st1 := { st with lastGcExh := false }
-        -- C03
-        if a == 0 then (st1, viol "gc:null-no-oom" s!"alloc id={id} a=0")
-        else if align == 0 || (a + offset) % align != 0 then
-          (st1, viol "gc:misaligned" s!"id={id} a={a} offset={offset} align={align}")
-        else if sz != sizeFor st.refoff nf payload then
-          (st1, viol "gc:size" s!"id={id} sz={sz} requested={sizeFor st.refoff nf payload}")
-        else if inmmtk != 1 then (st1, viol "gc:not-in-mmtk" s!"id={id} a={a}")
-        else if zero != 1 then (st1, viol "gc:not-zeroed" s!"id={id} a={a} sz={sz}")
-        else if stripDigits space != want then
-          (st1, viol "gc:wrong-space" s!"id={id} sem={sem} space={space} allocmap={want}")
-        else if r != a + st.refoff then (st1, viol "prog:ref-offset" s!"id={id} a={a} r={r}")
-        else
-        -- C02
-        match firstOverlap iv st.fresh with
-        | some y => (st1, viol "gc:overlap-fresh" s!"id={id} [{a},+{sz}) intersects id={y.id} [{y.start},+{y.size}) allocated since the last pause")
+        match checkAlloc st.refoff nf payload align offset want
+            { a, r, sz, zero := zero == 1, inmmtk := inmmtk == 1, space := stripDigits space } with
+        | some k => (st1, viol k s!"id={id} a={a} r={r} sz={sz} requested={sizeFor st.refoff nf payload} align={align} offset={offset} sem={sem} space={space} allocmap={want}")
         | none =>
-          let clash : Option Iv :=
-            match firstOverlap iv st.snapIvs with
-            | none => none
-            | some _ =>
-              let rch := reach st.heap
-              st.snapIvs.find? fun y => (firstOverlap iv [y]).isSome && rch.getD y.id false
-          match clash with
-          | some y => (st1, viol "gc:overlap-live" s!"id={id} [{a},+{sz}) intersects reachable id={y.id} [{y.start},+{y.size})")
+          match allocClash st.heap st.fresh st.snapIvs iv with
+          | some (true, y) => (st1, viol "gc:overlap-fresh" s!"id={id} [{a},+{sz}) intersects id={y.id} [{y.start},+{y.size}) allocated since the last pause")
+          | some (false, y) => (st1, viol "gc:overlap-live" s!"id={id} [{a},+{sz}) intersects reachable id={y.id} [{y.start},+{y.size})")
           | none =>
             match applyOp st.heap (.alloc (mutKey m slot) id nf sz sm) with
             | none => (st1, viol "prog:ill-formed" s!"alloc id={id} (ids must be dense: next={st.heap.objs.size})")
@@ -209,14 +187,11 @@ def doStats (st : St) (res : List String) : St × String :=
   match kvNum res "used" with
   | none => (st, viol "prog:parse" "stats result")
   | some used =>
-    if st.c09 && st.lastGcExh && st.heap.roots.isEmpty then
-      let st := { st with lastGcExh := false }
-      if st.samples < st.warm then
-        ({ st with samples := st.samples + 1, floor := Nat.max st.floor used }, "ok")
-      else if used > st.floor + st.slack then
-        ({ st with samples := st.samples + 1 },
-          viol "gc:floor" s!"cycle={st.samples + 1} used={used} floor={st.floor} slack={st.slack}")
-      else ({ st with samples := st.samples + 1 }, "ok")
+    if st.c09 && st.lastGcExh then
+      let (f, ok) := floorStep st.warm st.slack st.fl used
+      let st := { st with lastGcExh := false, fl := f }
+      if ok then (st, "ok")
+      else (st, viol "gc:floor" s!"cycle={f.samples} used={used} floor={f.floor} slack={st.slack}")
     else (st, "ok")
 
 def parseAllocmap (toks : List String) : List (String × String) :=
